@@ -20,6 +20,7 @@ type SynOpts struct {
 	LongBodies bool     // dedicated stratum with bodies >= 11 symbols
 	Terms      []gr.Sym // use exactly these terminals (nil: draw names)
 	NoEmpty    bool     // no alternative is the keyword empty
+	NoSplit    bool     // every nonterminal is defined by one rule
 }
 
 var ntNames = []string{"A", "B", "C", "D", "E", "F", "G", "H"}
@@ -277,6 +278,30 @@ func SynGrammar(o SynOpts) *rapid.Generator[*gr.Grammar] {
 		}
 		for i := range b.prods {
 			dedupeAlts(&b.prods[i])
+		}
+		// a nonterminal may be defined by several rules with other rules in
+		// between (gocc's BNF accepts that): split one definition
+		if !o.NoSplit && len(b.prods) >= 2 && rapid.IntRange(0, 4).Draw(t, "splitDef") == 0 {
+			var cands []int
+			for i := range b.prods {
+				if len(b.prods[i].Alts) >= 2 {
+					cands = append(cands, i)
+				}
+			}
+			if len(cands) > 0 {
+				pi := rapid.SampledFrom(cands).Draw(t, "splitProd")
+				k := rapid.IntRange(1, len(b.prods[pi].Alts)-1).Draw(t, "splitAt")
+				tail := gr.Prod{Name: b.prods[pi].Name, Alts: append([]gr.Alt_{}, b.prods[pi].Alts[k:]...)}
+				b.prods[pi].Alts = b.prods[pi].Alts[:k]
+				at := rapid.IntRange(pi+1, len(b.prods)).Draw(t, "splitPos")
+				if at == pi+1 && len(b.prods) > pi+1 {
+					at = pi + 2 // at least one other rule in between when possible
+				}
+				np := append([]gr.Prod{}, b.prods[:at]...)
+				np = append(np, tail)
+				np = append(np, b.prods[at:]...)
+				b.prods = np
+			}
 		}
 		g := &gr.Grammar{Prods: b.prods}
 		if o.Actions {
